@@ -518,10 +518,18 @@ def _world(block):
     elif mv == "linear_prev":   # state dependent dyadic linear model
         inputs = (["moneyness", "time_to_maturity"] if is_option else ["underlier_spot", "zeros"]) + ["prev_hedge"]
         model = _dyadic_linear(3, 1, block.get("wseed", 0), dtype)
+    elif mv == "dropout":       # mode-dependent layer: the hedge depends on hedger.training (and on the torch RNG)
+        inputs = ["moneyness", "time_to_maturity"] if is_option else ["underlier_spot", "zeros"]
+        model = torch.nn.Sequential(_dyadic_linear(2, 4, block.get("wseed", 0), dtype), torch.nn.Dropout(0.5),
+                                    _dyadic_linear(4, 1, block.get("wseed", 0) + 1, dtype))
     else:
         raise KeyError(mv)
     crit = make(block["crit"], block["param"], block["dtype"])
     hedger = Hedger(model, inputs, criterion=crit)
+    if block.get("mode") == "eval":
+        hedger.eval()
+    elif block.get("mode") == "train":
+        hedger.train()
     return hedger, deriv, stock, sim, scripts
 
 
@@ -539,6 +547,15 @@ def price(ctx, block):
     tag = f"{block['model']}/{block['derivative']}"
     eps = torch.finfo(S.DT[block["dtype"]]).eps
     ctx.tick(1, nontrivial=1)
+
+    def reseed():
+        # a model with a random layer (Dropout) draws from the torch generator: compared quantities are evaluated
+        # from the same generator state, hence see the same draws (one draw per forward, same order)
+        if block.get("rng") is not None:
+            torch.manual_seed(block["rng"])
+
+    flags0 = [m.training for m in hedger.modules()]
+    reseed()
     try:
         got = hedger.price(deriv, hedge=hedge, n_paths=n_paths, n_times=n_times, init_state=init)
     except Exception as e:
@@ -552,6 +569,10 @@ def price(ctx, block):
                       observed=f"{type(e).__name__}: {str(e)[:200]}", expected="a price", block=block)
         return
     calls = list(sim.log)
+    if [m.training for m in hedger.modules()] != flags0:
+        ctx.violation(site, "changes_training_mode", f"price() changed the training flag of the hedger / its modules "
+                      f"({tag}, mode {block.get('mode')})", observed=[m.training for m in hedger.modules()],
+                      expected=flags0, block=block)
     # (1) the request to the market
     want_calls = [{"n_paths": n_paths, "time_horizon": deriv.maturity, "init_state": init, "grad": False}] * n_times
     if calls != want_calls:
@@ -564,6 +585,7 @@ def price(ctx, block):
                       expected=[[], False, block["dtype"]], block=block)
         return
     # (2) minus the cash amount of (portfolio - payoff) on the same scripts
+    reseed()
     pls = _pls(hedger, deriv, hedge, stock, scripts, block)
     if crit == "iso" and any(float(q.min()) <= 0 for q in pls):
         # precondition of the isoelastic utility (domain x > 0) not met by this book: nothing is prescribed
@@ -614,12 +636,16 @@ def price(ctx, block):
     if block.get("repeat"):
         for r in range(block["repeat"]):
             sim.calls = 0
+            reseed()
             again = float(hedger.price(deriv, hedge=hedge, n_paths=n_paths, n_times=n_times, init_state=init))
+            reseed()
             pls2 = _pls(hedger, deriv, hedge, stock, scripts, block)
             sim.calls = 0
             with torch.no_grad():
+                reseed()
                 l1 = float(hedger.compute_loss(deriv, hedge=hedge, n_paths=n_paths, n_times=n_times, init_state=init))
                 sim.calls = 0
+                reseed()
                 l2 = float(hedger.compute_loss(deriv, hedge=hedge, n_paths=n_paths, n_times=n_times, init_state=init))
             ctx.tick(3, nontrivial=3)
             if again != g and not (math.isnan(again) and math.isnan(g)):
@@ -635,6 +661,7 @@ def price(ctx, block):
     # (3) entropic risk measure: the price is the loss
     if crit == "erm":
         sim.calls = 0
+        reseed()
         with torch.no_grad():
             loss = float(hedger.compute_loss(deriv, hedge=hedge, n_paths=n_paths, n_times=n_times, init_state=init))
         ctx.tick(1, nontrivial=1)
@@ -648,6 +675,7 @@ def price(ctx, block):
         b2["clauses"] = list(block.get("clauses", [])) + [k]
         h2, d2, s2, sim2, _ = _world(b2)
         hedge2 = [s2] if block.get("hedge") == "stock" else None
+        reseed()
         got2 = float(h2.price(d2, hedge=hedge2, n_paths=n_paths, n_times=n_times, init_state=init))
         ctx.tick(1, nontrivial=1)
         if not abs(got2 - (g + k)) <= 2 * tol + 4 * eps * abs(k):
@@ -774,6 +802,18 @@ def price_blocks(ctx):
                     if crit in CLOSED:
                         b["shift"] = 0.375
                     out.append(b)
+    # a model with a mode-dependent random layer (Dropout), hedger in training mode (a fresh hedger) and in eval mode
+    for kind in (("european", "variance_swap") if ctx.quick else market.ALL_DERIVATIVE_KINDS):
+        for mode in ("train", "eval"):
+            for crit, p in (("erm", 1.0), ("es", 0.5), ("eloss", 1.0), ("user_blend", 0.5)):
+                for alphabets in ([A0], [A0, A1]):
+                    for rng in ((3,) if ctx.quick else (3, 11)):
+                        b = {"T": 3, "derivative": kind, "model": "dropout", "mode": mode, "rng": rng, "crit": crit,
+                             "param": p, "dtype": "float64", "alphabets": alphabets, "cost": 1 / 512,
+                             "wseed": ctx.seed % 5, "hedge": "stock", "init_state": None, "repeat": 1}
+                        if crit in CLOSED:
+                            b["shift"] = 0.375
+                        out.append(b)
     # float32 world
     for crit, p in (("erm", 1.0), ("es", 0.5), ("qcvar", 10.0)):
         out.append({"T": 3, "derivative": "european", "model": "linear", "crit": crit, "param": p, "dtype": "float32",
